@@ -260,8 +260,19 @@ func wsFiles() []wsFile {
 		{bl("+a.example.org,192.0.2.1", "\t+www.example.org,192.0.2.1", "+c.example.org,192.0.2.1"), "badfile-wslead", false},
 		{bl("\t\t", "+c.example.org,192.0.2.1"), "badfile-wslead", false},
 		{bl("\xc2\xa0#c", "+c.example.org,192.0.2.1"), "badfile-wslead", false},
-		// a line that still ends in CR after ScanLines: written through with it, the re-read drops it
-		{bl("'cr.example.org,abc\r\r", "+c.example.org,192.0.2.1"), "wsfile-crcr", false},
+		// lines that still end in CR after ScanLines dropped one: the CR belongs to the last field, and
+		// the preprocessor has to write it so that it is read back (one, two and three CRs in the text)
+		{bl("'cr.example.org,abc\r\r", "+c.example.org,192.0.2.1",
+			"'cr1.example.org,one\r", "'cr3.example.org,three\r\r\r", "'cr0.example.org,\r\r",
+			"+t1.example.org,192.0.2.1,300\r", "+t2.example.org,192.0.2.1,300\r\r", "+t3.example.org,192.0.2.1,300\r\r\r",
+			"+l2.example.org,192.0.2.1,300,,a\r\r", "+l3.example.org,192.0.2.1,300,,ab\r\r\r",
+			":g2.example.org,99,abc\r\r", "Cc2.example.org,target.example.org\r\r",
+			"Zexample.org,a.ns.example.org,dns.example.org,,7200", "&example.org,192.0.2.53,a,3600",
+			"\r\r", "#c\r\r"), "wsfile-crcr", true},
+		// the last line has no newline (and ends in white space / CR)
+		{bl("+a.example.org,192.0.2.1,300", "'last.example.org,no newline "), "wsfile-noeol", true},
+		{bl("+a.example.org,192.0.2.1,300", "'last.example.org,no newline\r\r"), "wsfile-noeol-cr", true},
+		{bl("Zexample.org,a.ns.example.org,dns.example.org,,7200", "&example.org,192.0.2.53,a,3600", "%ab,10.0.0.0/8,m1"), "wsfile-noeol-net", true},
 	}
 }
 
